@@ -39,7 +39,7 @@ CBMC_FLAGS = ['--bounds-check', '--pointer-check', '--signed-overflow-check', '-
               '--div-by-zero-check', '--unwind', '24', '--unwinding-assertions', '--object-bits', '12']
 SOLVERS = ['cvc5', 'z3']
 # shim functions that exist only as (assumed) contracts taken from the C++ standard
-SHIM_CONTRACTS = ['bs_lower_bound']
+SHIM_CONTRACTS = ['bs_lower_bound', 'bs_unique']
 
 
 class Undecided(Exception):
